@@ -85,6 +85,55 @@ int main(void)
   }
   printf("],\"valid\":[");
   for (t = 0; t <= 8; t++) printf("%s%d", t ? "," : "", esl_abc_ValidateType(t) == eslOK ? 1 : 0);
+  printf("],\"classes\":{");
+  {
+    int types[5] = { eslDNA, eslRNA, eslAMINO, eslCOINS, eslDICE }; const char *names[5] = { "dna", "rna", "amino", "coins", "dice" }; int k;
+    for (k = 0; k < 5; k++) {
+      ESL_ALPHABET *a = esl_alphabet_Create(types[k]);
+      printf("%s\"%s\":{\"c\":[", k ? "," : "", names[k]);
+      for (c = 0; c < 256; c++) {
+        char ch = (char) c; int m = 0;     /* the C* macros take a (signed) char, as sq->seq[i] is */
+        if (esl_abc_CIsValid(a, ch))      m |= 1;
+        if (esl_abc_CIsResidue(a, ch))    m |= 2;
+        if (esl_abc_CIsCanonical(a, ch))  m |= 4;
+        if (esl_abc_CIsGap(a, ch))        m |= 8;
+        if (esl_abc_CIsDegenerate(a, ch)) m |= 16;
+        if (esl_abc_CIsUnknown(a, ch))    m |= 32;
+        if (esl_abc_CIsNonresidue(a, ch)) m |= 64;
+        if (esl_abc_CIsMissing(a, ch))    m |= 128;
+        printf("%s%d", c ? "," : "", m);
+      }
+      printf("],\"x\":[");
+      for (c = 0; c < 256; c++) {
+        ESL_DSQ x = (ESL_DSQ) c; int m = 0;
+        if (esl_abc_XIsValid(a, x))      m |= 1;
+        if (esl_abc_XIsResidue(a, x))    m |= 2;
+        if (esl_abc_XIsCanonical(a, x))  m |= 4;
+        if (esl_abc_XIsGap(a, x))        m |= 8;
+        if (esl_abc_XIsDegenerate(a, x)) m |= 16;
+        if (esl_abc_XIsUnknown(a, x))    m |= 32;
+        if (esl_abc_XIsNonresidue(a, x)) m |= 64;
+        if (esl_abc_XIsMissing(a, x))    m |= 128;
+        printf("%s%d", c ? "," : "", m);
+      }
+      printf("],\"get\":[%d,%d,%d,%d]}", (int) esl_abc_XGetGap(a), (int) esl_abc_XGetUnknown(a), (int) esl_abc_XGetNonresidue(a), (int) esl_abc_XGetMissing(a));
+      esl_alphabet_Destroy(a);
+    }
+  }
+  printf("},\"guessprobe\":[");
+  /* esl_abc_GuessAlphabet on 26 x 3 probe compositions: 30 each of A,C,G,T (resp. A,C,G,U / nothing) plus 5 of letter l */
+  {
+    int base, l, type;
+    for (base = 0; base < 3; base++)
+      for (l = 0; l < 26; l++) {
+        int64_t ct[26]; int i;
+        for (i = 0; i < 26; i++) ct[i] = 0;
+        if (base < 2) { ct[0] = ct[2] = ct[6] = 100; ct[base == 0 ? 19 : 20] = 100; }
+        ct[l] += (base == 2 ? 12 : 8);
+        esl_abc_GuessAlphabet(ct, &type);
+        printf("%s%d", (base || l) ? "," : "", type);
+      }
+  }
   printf("],\"eslUNKNOWN\":%d,\"eslOK\":%d,\"eslFAIL\":%d,\"eslEINVAL\":%d,\"eslENOALPHABET\":%d}\n", eslUNKNOWN, eslOK, eslFAIL, eslEINVAL, eslENOALPHABET);
   return 0;
 }
@@ -114,13 +163,20 @@ def render_aux(d):
            "    `textRevcomp[c]` = (byte left in a one-byte text-mode sequence `[c]` by `esl_sq_ReverseComplement`, 1 if it returned",
            "    eslOK / 0 if eslEINVAL) for c = 0..255;  `decodeType[t]` = bytes of `esl_abc_DecodeType(t)` (none = NULL + exception),",
            "    `encodeOfDecode[t]` = `esl_abc_EncodeType(esl_abc_DecodeType(t))` (-1 -> 999), `validType[t]` = `esl_abc_ValidateType(t) == eslOK`,",
-           "    t = 0..8. -/",
+           "    t = 0..8;  `cClass_<abc>[c]` / `xClass_<abc>[x]` = bit mask of the macros esl_abc_{C,X}Is{Valid,Residue,Canonical,Gap,Degenerate,",
+           "    Unknown,Nonresidue,Missing} (bits 0..7) on every (signed) char / every code 0..255; `xGet_<abc>` = XGetGap/Unknown/Nonresidue/",
+           "    Missing; `guessProbe` = answers of esl_abc_GuessAlphabet on 3 x 26 probe compositions (see the dumper). -/",
            "namespace EaselModel.Generated.AlphabetsAux",
            ""]
     out.append("def textRevcomp : List (Nat × Nat) := [" + ", ".join("(%d, %d)" % (a, b) for a, b in d["revtext"]) + "]")
     out.append("def decodeType : List (Option (List Nat)) := [" + ", ".join("none" if v is None else "some " + lean_list(v) for v in d["decode"]) + "]")
     out.append("def encodeOfDecode : List Nat := " + lean_list([999 if v < 0 else v for v in d["encode"]]))
     out.append("def validType : List Bool := [" + ", ".join("true" if v else "false" for v in d["valid"]) + "]")
+    for nm, t in d["classes"].items():
+        out.append("def cClass_%s : List Nat := %s" % (nm, lean_list(t["c"])))
+        out.append("def xClass_%s : List Nat := %s" % (nm, lean_list(t["x"])))
+        out.append("def xGet_%s : List Nat := %s" % (nm, lean_list(t["get"])))
+    out.append("def guessProbe : List Nat := " + lean_list(d["guessprobe"]))
     for k in ("eslUNKNOWN", "eslOK", "eslFAIL", "eslEINVAL", "eslENOALPHABET"):
         out.append("def c_%s : Nat := %d" % (k, d[k]))
     out.append("")
